@@ -5,7 +5,9 @@ CFG = {
     "props": ["C15_Props"],
     "level_text": (
         "Theorems in Coq 8.16 over a hand-written executable model of syncx/pipe/mux (the seven handlers as "
-        "branch-for-branch programs, map and LRU cache facade, locHash, one queue and one goroutine per worker): "
+        "branch-for-branch programs, map and LRU cache facade, locHash, one queue and one goroutine per worker; values "
+        "are integers or Go's nil - a callback may answer (nil, nil) and the handlers cache that nil as a present "
+        "entry; the handlers never look at the caller's context, as coded): "
         "(1) for EVERY sequential history of get/add/update/delete/update-or-add/upsert-then-load/upsert-then-renew "
         "over any keys, every worker count, either facade and EVERY pattern of failing load/add/update/upsert/delete "
         "callbacks the cache stays coherent with the store, a successful delete evicts, an add for a cached key is "
@@ -18,7 +20,11 @@ CFG = {
         "fault positions of a 340-line control skeleton. The model is tied to the current source on every run by "
         "differential runs of the real WorkerGrp: sequential histories (exact event list, result, worker index, cache "
         "and store contents after every call) and forced schedules (one instrumented call per step, positive "
-        "signals only, exact answer and snapshot per label), all evaluated inside Coq."
+        "signals only, exact answer and snapshot per label), all evaluated inside Coq. Sequential histories also let "
+        "store callbacks cancel the caller's context (on entry / just before a successful return): the model's cache, "
+        "store and callbacks are those of an uncancelled call, the caller may receive either its result or the "
+        "context's error (AsyncC.R selects), and a barrier call through the same worker makes the harness wait for "
+        "the handler before it reads cache and store."
     ),
     "level_note": (
         "Trusted: Coq kernel + vm_compute; hand model (C15_Model.v, C15_LTS.v) tied by correspondence; the Go "
@@ -31,13 +37,18 @@ CFG = {
         "Environment assumptions: a failing callback leaves the store unchanged; callbacks touch only the key they "
         "are called for; every cached value has Size() 1 in the LRU facade; locHash(MinInt) is negative and the "
         "caller panics before anything is accepted (DESIGN section 8), so lochash_in_range carries that guard; the "
+        "a cached nil stands for 'the store holds nothing for the key' (store row absent = nil), so coherence with "
+        "nil values is the same equation; context cancellation is exercised in sequential histories only (in a "
+        "scheduled run a caller that leaves early would no longer signal completion) - the theorems do not depend on "
+        "it because no handler reads the context; the "
         "machine's atomic step is one instrumented call (cache call or store callback) - sound because the caches "
         "and the queue are lock-protected (lint) and a worker is one goroutine. No axioms, nothing PENDING."
     ),
     "rule": (
         "sequential: a random history (6..36 calls + probes) over 2..5 keys of one hasher.go key type, 1/2/3/5/127 "
         "workers, map or LRU(0,1,2,3,100) facade, built by NewWorkGrp+logging facade or by NewWorkGrpWithMapCache/"
-        "WithLRU, callback faults at rate 0/0.1/0.25/0.5; non-trivial = at least one cache hit and one successful "
+        "WithLRU, callback faults at rate 0/0.1/0.25/0.5, '(nil, nil)' answers at rate 0/0.05/0.15, context "
+        "cancellation by a callback at rate 0/0.08/0.2 (each followed by a barrier call); non-trivial = at least one cache hit and one successful "
         "store write. scheduled: 3..12 jobs on 1..3 keys, 1..3 workers, queue bound 0/1/2, a random interleaving of "
         "call / single-call worker steps / Stop; non-trivial = at least 6 labels and (a fast-path hit or >= 3 jobs). "
         "distinct = distinct (configuration, inputs, observation)"
